@@ -181,6 +181,43 @@ Theorem C04_html_feed_loop_done_means_all_input_consumed :
 Proof. exact html_feed_loop_consumes. Qed.
 Print Assumptions C04_html_feed_loop_done_means_all_input_consumed.
 
+(* the same clause WITHOUT invariant or fuel hypotheses and for BOTH tokenizers (TokIR/Consumed.v, Inst/InstConsumed.v):
+   any machine, any fuel, any sink - if feed() (or the driver's feed loop) answers Done, the queue is empty.  The only
+   table condition is that no step arm ends in the Eof terminator, decided on the regenerated tables. *)
+From HV Require Import TokIR.Consumed Inst.InstConsumed.
+
+Theorem C04_html_feed_done_means_all_input_consumed_unconditional :
+  forall simd ent c1 sk fuel m,
+  let r := feed [] fq_next fq_peek (@app N) (fun q => q) fq_run1 html_flavour true html_table simd ent c1 sk fuel m in
+  snd r = SSuspend -> mq (fst r) = [].
+Proof. exact html_feed_done_queue_empty. Qed.
+Print Assumptions C04_html_feed_done_means_all_input_consumed_unconditional.
+
+Theorem C04_html_feed_loop_done_means_all_input_consumed_unconditional :
+  forall simd ent c1 sk fuel inj n m log,
+  let r := feed_loop [] fq_next fq_peek (@app N) (fun q => q) fq_run1 html_flavour true html_table simd ent c1 sk n fuel inj m log in
+  hd (SPanic 0) (snd r) = SSuspend -> mq (fst r) = [].
+Proof. exact html_feed_loop_done_queue_empty. Qed.
+Print Assumptions C04_html_feed_loop_done_means_all_input_consumed_unconditional.
+
+Theorem C04_xml_feed_done_means_all_input_consumed :
+  forall simd ent c1 sk fuel m,
+  let r := feed [] fq_next fq_peek (@app N) (fun q => q) fq_run1 xml_flavour true xml_table simd ent c1 sk fuel m in
+  snd r = SSuspend -> mq (fst r) = [].
+Proof. exact xml_feed_done_queue_empty. Qed.
+Print Assumptions C04_xml_feed_done_means_all_input_consumed.
+
+Theorem C04_xml_feed_loop_done_means_all_input_consumed :
+  forall simd ent c1 sk fuel inj n m log,
+  let r := feed_loop [] fq_next fq_peek (@app N) (fun q => q) fq_run1 xml_flavour true xml_table simd ent c1 sk n fuel inj m log in
+  hd (SPanic 0) (snd r) = SSuspend -> mq (fst r) = [].
+Proof. exact xml_feed_loop_done_queue_empty. Qed.
+Print Assumptions C04_xml_feed_loop_done_means_all_input_consumed.
+
+Theorem C04_xml_step_arms_never_answer_eof : forall s, noeofb (t_step xml_table s) = true.
+Proof. exact xml_noeof_all. Qed.
+Print Assumptions C04_xml_step_arms_never_answer_eof.
+
 (* from any machine satisfying the two invariants (kept by feed, pushed chunks and injected text) *)
 Theorem C04_html_tokenizer_total_from_any_machine :
   forall simd ent c1 sk, html_sink_ok sk = true ->
